@@ -170,3 +170,43 @@ def lex(h):
         h.results.append(ObResult(h.task.name, 'Lex: ' + name, r.status, r.backend, r.seconds, '', 'lemma', r.detail))
     r = smt.prove(H, z3.Not(LT(a, la, b, lb, dab)), use_cvc5=False, timeout_ms=5000)
     h.results.append(ObResult(h.task.name, 'canary: Lex hypotheses consistent', 'canary-ok' if r.status == 'sat' else 'canary-verified', r.backend, r.seconds, '', 'canary'))
+
+
+# ------------------------------------------------------------------------------------------------ key functions
+@vc('C04.comparable_itemgetter', functions=['petl.comparison.comparable_itemgetter', 'petl.comparison._itemgetter_with_default'],
+    props=['C04', 'C05', 'C06', 'C09', 'C10', 'C11'],
+    assumptions=['Comparable through its contract (lib_order; discharged by C04.ladder)', 'rows are sequences; indices are non-negative'])
+def comparable_itemgetter(h):
+    """the key function every sort / merge / group operator uses: key(row) = Comparable(cell) for one key field,
+    Comparable((cell, ...)) for several, a missing cell read as None, Comparable(()) for no key field -- always THE Comparable
+    wrapper (so nested and mixed-type keys are ordered by C04), never a bare or partially wrapped value."""
+    from contracts import lib_order
+    for nkeys in (0, 1, 2):
+        def body(ctx, nkeys=nkeys):
+            it = h.interp(ctx)
+            it.summaries.update(lib_order.SUMMARIES)
+            row = sym_seq(ctx, 'row', kind='src')
+            idx = [sym_int('i%d' % j) for j in range(nkeys)]
+            for i in idx:
+                ctx.assume(i.t >= 0)
+            g = it.call(closure_of(it, 'petl.comparison.comparable_itemgetter'), idx, {})
+            try:
+                r = it.call(g, [row], {})
+            except PyExc as e:
+                ctx.oblige('comparable_itemgetter: the key function never raises on a short row', z3.BoolVal(False), e.origin or '')
+                return
+            cell = lambda i: z3.If(i.t < row.len, z3.Select(row.arr, i.t), smt.mkNone() if hasattr(smt, 'mkNone') else as_v(None))
+            ok = isinstance(r, lib_order.CmpObj)
+            if not ok:
+                ctx.oblige('comparable_itemgetter: the key is a Comparable', z3.BoolVal(False))
+                return
+            if nkeys == 0:
+                goal = z3.And(smt.cls(r.v) == smt.TUPLE, smt.seq_len(r.v) == 0)
+            elif nkeys == 1:
+                goal = r.v == cell(idx[0])
+            else:
+                goal = z3.And(smt.cls(r.v) == smt.TUPLE, smt.seq_len(r.v) == 2,
+                              z3.Select(smt.seq_arr(r.v), 0) == cell(idx[0]), z3.Select(smt.seq_arr(r.v), 1) == cell(idx[1]))
+            ctx.oblige('comparable_itemgetter(%d key field%s): key(row) = Comparable of the key cell%s, a missing cell read as None' %
+                       (nkeys, '' if nkeys == 1 else 's', '' if nkeys == 1 else 's as a tuple'), goal)
+        h.explore(body)
